@@ -440,6 +440,10 @@ def render_rows(op):
         if op.get('bad_row') == i:
             if op.get('bad_field') == 'node':
                 f[0] = 'notanumber'
+            elif op.get('bad_field') == 'node2':
+                f[1] = 'notanumber'
+            elif op.get('bad_field') == 'end' and fmt == 'snapshots' and len(f) == 4:
+                f[3] = 'notatime'                      # the optional vanishing column of a snapshot row
             else:
                 f[-1 if fmt == 'interactions' else 2] = 'notatime'
         ln = j.join(f)
